@@ -68,6 +68,7 @@ type GhostSet struct {
 type LoopSpec struct {
 	Key        string
 	Invariants []*SExpr
+	Iteration  []*SExpr // checked at the end of every iteration; iter(e) = e in the state at the loop head
 	Decreases  *SExpr
 	Modifies   []*SExpr
 }
@@ -99,6 +100,7 @@ type SpecSet struct {
 	Types  map[string]*TypeSpec
 	Pures  map[string]*PureFunc // by pkg.name and by name
 	Lemmas map[string]*NamedExpr
+	Ghosts map[string]bool // package-level ghost variables declared with "ghostvar" (pkg.name), mathematical integers
 	Files  []string
 	Assumed []string // trusted contracts, scanned mechanically
 }
@@ -106,7 +108,7 @@ type SpecSet struct {
 // LoadSpecs reads the //@ lines of every verif_contracts.go in loaded packages.
 func LoadSpecs(p *Program) (*SpecSet, error) {
 	ss := &SpecSet{Funcs: map[string]*FuncSpec{}, Loops: map[string]*LoopSpec{}, Types: map[string]*TypeSpec{},
-		Pures: map[string]*PureFunc{}, Lemmas: map[string]*NamedExpr{}}
+		Pures: map[string]*PureFunc{}, Lemmas: map[string]*NamedExpr{}, Ghosts: map[string]bool{}}
 	// contract files of the loaded packages and of every repository package they import
 	seen := map[string]bool{}
 	var visit func(path string, imports map[string]*packages.Package)
@@ -158,7 +160,7 @@ func (ss *SpecSet) parseFile(pkg, file, text string) error {
 	}
 	var items []item
 	kw := map[string]bool{"func": true, "loop": true, "type": true, "pure": true, "lemma": true, "requires": true, "ensures": true,
-		"modifies": true, "decreases": true, "invariant": true, "inv": true, "owns": true, "mode": true, "trusted": true, "iface": true, "functype": true, "sets": true, "ghost": true, "ghost_exit": true}
+		"modifies": true, "decreases": true, "invariant": true, "inv": true, "owns": true, "mode": true, "trusted": true, "iface": true, "functype": true, "sets": true, "ghost": true, "ghost_exit": true, "ghostvar": true, "iteration": true}
 	for i, ln := range lines {
 		t := strings.TrimSpace(ln)
 		if !strings.HasPrefix(t, "//@") {
@@ -297,6 +299,20 @@ func (ss *SpecSet) parseFile(pkg, file, text string) error {
 			} else if curL != nil {
 				curL.Decreases = e
 			}
+		case "ghostvar":
+			for _, g := range strings.Fields(strings.ReplaceAll(rest, ",", " ")) {
+				ss.Ghosts[pkg+"."+g] = true
+			}
+			curF, curL, curT = nil, nil, nil
+		case "iteration":
+			if curL == nil {
+				return errf("iteration outside loop")
+			}
+			e, err := parse(rest)
+			if err != nil {
+				return err
+			}
+			curL.Iteration = append(curL.Iteration, e)
 		case "invariant":
 			if curL == nil {
 				return errf("invariant outside loop")
@@ -666,7 +682,9 @@ func (p *sparser) parseIff() (*SExpr, error) {
 		return nil, err
 	}
 	// <==> : LSS EQL GTR adjacent
-	for p.cur().tok == token.LSS && p.peek(1).tok == token.EQL && p.peek(2).tok == token.GTR {
+	// (the Go scanner splits "<==>" as "<=" "=" ">")
+	for (p.cur().tok == token.LSS && p.peek(1).tok == token.EQL && p.peek(2).tok == token.GTR) ||
+		(p.cur().tok == token.LEQ && p.peek(1).tok == token.ASSIGN && p.peek(2).tok == token.GTR && p.adjacent(p.cur(), p.peek(1))) {
 		p.i += 3
 		r, err := p.parseImplies()
 		if err != nil {
@@ -757,6 +775,9 @@ func (p *sparser) parseCmp() (*SExpr, error) {
 			}
 			op = "lt"
 		case token.LEQ:
+			if p.peek(1).tok == token.ASSIGN && p.peek(2).tok == token.GTR && p.adjacent(t, p.peek(1)) {
+				return l, nil
+			}
 			op = "le"
 		case token.GTR:
 			op = "gt"
